@@ -43,10 +43,11 @@ var BankDenoms = []string{"stake", "uregen", "uatom", "ibc/27394FB092D2ECCD56123
 
 // Profile tilts the message mix.
 type Profile struct {
-	Name    string
-	Weights map[string]int // generator name → weight
-	Hostile float64        // probability of damaging a generated message
-	Extreme float64        // probability of an extreme-magnitude amount where amounts are free
+	Name     string
+	Weights  map[string]int // generator name → weight
+	Hostile  float64        // probability of damaging a generated message
+	Extreme  float64        // probability of an extreme-magnitude amount where amounts are free
+	Boundary float64        // probability of aiming a batch start date at a basket criterion boundary
 	// MaxBatches etc. bound the state size.
 	MaxClasses, MaxProjects, MaxBatches, MaxBaskets, MaxOrders int
 	BlockEvery                                                 int // average txs per block
